@@ -280,6 +280,46 @@ def structure_mutations(raw, password, R, tier):
                 yield (f"number {'/'.join(map(str, path))} := {v}", mutate.build_from_tree(t))
             except Exception:  # noqa
                 continue
+    # coder properties: truncated to every length, each byte set to hostile values (AES cycle counts, dictionary sizes, ...), extended
+    def coder_nodes(node, path=()):
+        if isinstance(node, dict):
+            if "props" in node and "id" in node:
+                yield path
+            for k, v in node.items():
+                yield from coder_nodes(v, path + (k,))
+        elif isinstance(node, list):
+            for i, v in enumerate(node):
+                yield from coder_nodes(v, path + (i,))
+
+    for cp in list(coder_nodes(tree)):
+        node = tree
+        for k in cp:
+            node = node[k]
+        props = bytes.fromhex(node["props"])
+        variants = [props[:n] for n in range(0, len(props))] + [props + b"\x00", props + b"\xff" * 4]
+        for pos in range(min(len(props), 6)):
+            for v in (0x00, 0x19, 0x3E, 0x3F, 0x40, 0x7F, 0x80, 0xBE, 0xFF):
+                variants.append(props[:pos] + bytes([v]) + props[pos + 1:])
+        for n in (1, 2):        # the short forms other writers use (7zAES: one or two bytes, no salt / IV stored)
+            for v in (0x00, 0x13, 0x19, 0x1E, 0x28, 0x3E, 0x3F):
+                variants.append(bytes([v]) + bytes(n - 1))
+        seen = set()
+        for var in variants:
+            if var == props or var in seen:
+                continue
+            seen.add(var)
+            t = copy.deepcopy(tree)
+            nd = t
+            for k in cp:
+                nd = nd[k]
+            nd["props"] = var.hex()
+            nd["propsize"] = len(var)
+            if len(var) == 0:
+                continue            # (a coder without properties needs another flag byte: left to the NUMBER/flag mutations)
+            try:
+                yield (f"coder {nd['id']} properties := {var.hex()[:24]}", mutate.build_from_tree(t))
+            except Exception:  # noqa
+                continue
     for lp, lst in list(_lists(tree.get("header") or {}, ("header",))) + list(_lists((tree.get("encoded") or {}).get("streams") or {}, ("encoded", "streams"))):
         for k in range(len(lst)):
             for op in ("drop", "dup", "swap"):
@@ -354,6 +394,15 @@ def compound_attacks(tier):
                     except Exception:  # noqa
                         continue
 
+    # the start header's own fields (re-sealed): offsets and sizes the file cannot back
+    files = [{"name": "a", "kind": "file", "data": b"abc" * 20}]
+    raw, _ = write_archive({"files": files, "folders": [{"nfiles": 1, "coders": [{"id": "copy"}], "crc": "substream"}], "header": "raw"})
+    off, size, hcrc = struct.unpack("<QQI", raw[12:32])
+    for field in ("offset", "size"):
+        for val in (0, 1, size - 1, size + 1, len(raw), 1 << 20, 1 << 30, 0x60000000, (1 << 31) - 1, 1 << 31, (1 << 32) - 1, 1 << 32, 1 << 40, (1 << 63) - 1, (1 << 64) - 1):
+            start = struct.pack("<QQI", val if field == "offset" else off, val if field == "size" else size, hcrc)
+            yield (f"start header: next header {field} := {val}", raw[:8] + struct.pack("<I", zlib.crc32(start)) + start + raw[32:])
+
     def seal(body_after_sig: bytes, hdr_off: int, hdr: bytes) -> bytes:
         start = struct.pack("<QQI", hdr_off, len(hdr), zlib.crc32(hdr))
         return b"7z\xbc\xaf\x27\x1c\x00\x04" + struct.pack("<I", zlib.crc32(start)) + start + body_after_sig
@@ -370,6 +419,18 @@ def compound_attacks(tier):
     b = packed_header(0, 18)
     yield ("two packed headers unpacking to each other", seal(a + b, 0, a))
     yield ("packed header pointing at itself, end header behind padding", seal(bytes(5) + packed_header(5, 18), 5, packed_header(5, 18)))
+
+
+def run_sequence_rss(case):
+    """the same, reporting the resident set the process grew to (a refusal by MemoryError counts as an ordinary answer here):
+    used to tell a large RESERVATION of address space (a decoder's dictionary, never touched) from memory really used"""
+    before = resource.getrusage(resource.RUSAGE_SELF).ru_maxrss
+    try:
+        r = run_sequence(case)
+    except MemoryError:
+        r = {"open": "MemoryError", "calls": [], "wall": 0}
+    r["rss_growth_kb"] = max(0, resource.getrusage(resource.RUSAGE_SELF).ru_maxrss - before)
+    return r
 
 
 SEQUENCES = [["getnames", "list", "test", "testzip", "extractall"], ["extractall", "extractall"], ["extract", "extract"], ["testzip", "extractall", "test"],
